@@ -39,3 +39,13 @@ package forkjoin
 //@ assigns o.waitOnCancel
 //@ ensures o.waitOnCancel
 
+// New starts exactly as many workers as the options ask for (the multi client asks for one per group member, so that
+// a hung member never delays the others): the worker count is what the last option left in place.
+//@ func New
+//@ props C19
+//@ ghost wSet int
+//@ ghostafter opt: wSet = options.workers
+//@ loop 1 invariant $i > 0 ==> wSet == options.workers
+//@ loop 2 invariant ncalls("go func") == $i && (len(opts) > 0 ==> wSet == options.workers)
+//@ ensures len(opts) > 0 && wSet >= 0 ==> ncalls("go func") == wSet
+
